@@ -172,13 +172,13 @@ theorem closed_uequiv (n m : Nat) (A : Matrix (Fin n) (Fin m) ℤ) :
 /-- `diagonalize_equiv`: the result `D` of `diagonalize_in_place` on `A` is diagonal and
     `D = U · A · V` with `det U = ±1`, `det V = ±1`. -/
 theorem diagonalize_equiv' (mat D : Mat) (n m : Nat) (hR : Rect mat n m) (hn : 0 < n)
-    (hS : SmallRun (List.range (min n m)) mat) (h : diagonalize mat = some D) :
+    (h : diagonalize mat = some D) :
     (∀ r c, r < n → c < m → r ≠ c → get D r c = 0) ∧
     ∃ (U : Matrix (Fin n) (Fin n) ℤ) (V : Matrix (Fin m) (Fin m) ℤ),
       (U.det = 1 ∨ U.det = -1) ∧ (V.det = 1 ∨ V.det = -1) ∧
       U * toMatrix mat n m * V = toMatrix D n m := by
   obtain ⟨hd, U, V, hU, hV, e⟩ := diagonalize_diagonal' mat D n m
-    (fun M => UEquiv (toMatrix mat n m) (toMatrix M n m)) (closed_uequiv n m _) hR hn hS
+    (fun M => UEquiv (toMatrix mat n m) (toMatrix M n m)) (closed_uequiv n m _) hR hn
     (UEquiv.refl _) h
   refine ⟨hd, U, V, ?_, ?_, e⟩
   · exact Int.isUnit_iff.mp ((Matrix.isUnit_iff_isUnit_det U).mp hU)
